@@ -11,6 +11,7 @@ for p in tools/gen_*.py; do
     tools/gen_template.py) python3 "$p" "$REPO" lean/IndicatifModel/Generated/TemplateArms.lean ;;
     tools/gen_overrides.py) python3 "$p" "$REPO" lean/IndicatifModel/Generated/Overrides.lean ;;
     tools/gen_termlike.py) python3 "$p" "$REPO" lean/IndicatifModel/Generated/TermForward.lean ;;
+    tools/gen_duration.py) python3 "$p" "$REPO" lean/IndicatifModel/Generated/HumanDur.lean ;;
     tools/gen_finish.py) python3 "$p" "$REPO" lean/IndicatifModel/Generated/FinishArms.lean ;;
   esac
 done
